@@ -439,8 +439,11 @@ def oracle(p):
                     except Exception as e:  # noqa
                         fail(f"C04:ImageBatch.{meth}:negative-levels:raises:{type(e).__name__}", f"raises {type(e).__name__}: {str(e)[:140]}",
                              grid_flag=flag, ac=ac, D=D)
+    # ---- defect candidates reported to the lead (proposed patch: build/C04_fix_proposal2.diff); evaluated only with
+    # VERIF_C04_CANDIDATES=1 until the lead has decided between repair and recorded finding ----
+    cand = os.environ.get("VERIF_C04_CANDIDATES", "0") == "1"
     # pyramid with a given finest-level spacing: level 0 is the ramp on its grid inside the hull of the original samples
-    for D in (2, 3):
+    for D in ((2, 3) if cand else ()):
         for flag in (True, False):
             for sp in (0.5, 1.5):
                 try:
@@ -470,6 +473,24 @@ def oracle(p):
             vec = torch.tensor([1.0, 0.5, -0.75][:D], dtype=torch.float64)
             vw = vec.reshape((1, D) + (1,) * D).expand((1, D) + tuple(g.shape)).clone()
             f0 = FlowFields(vw, g, Axes.WORLD).axes(getattr(Axes, axn))
+            # FlowFields.sample(grid) converts the vectors to the units of the grid sampled on (implemented; always evaluated)
+            for tname, td_ in (("finer", dict(gd, size=[12, 9, 6][:D], spacing=[0.5, 1.0, 1.0][:D])),
+                               ("coarser-flag", dict(gd, size=[4, 4, 3][:D], spacing=[2.0, 2.5, 2.0][:D], align_corners=False))):
+                try:
+                    r_ = f0.sample(mk(td_))
+                    counts["probes"] += 1
+                    back = r_.axes(Axes.WORLD).tensor().double()
+                    sl = (0, slice(None)) + tuple(slice(n_ // 2, n_ // 2 + 1) for n_ in back.shape[2:])
+                    inner = back[sl].reshape(D, -1)
+                    if r_.axes() != getattr(Axes, axn) or not bool(((inner - vec.unsqueeze(1)).abs() <= 1e-4).all()):
+                        fail(f"C04:FlowFields.sample:vector-rescaling:{axn}",
+                             f"a constant world displacement {vec.tolist()} given w.r.t. {axn} axes describes {[round(float(v), 4) for v in inner[:, 0]]} "
+                             f"(axes {r_.axes()}) after sample() on another grid ({tname}): vectors are not converted to the units of the new grid",
+                             grids=[gd], target=td_)
+                except Exception as e:  # noqa
+                    fail(f"C04:FlowFields.sample:{axn}:raises:{type(e).__name__}", f"raises {type(e).__name__}: {str(e)[:140]}", grids=[gd], target=td_)
+            if not cand:
+                continue
             ops = [("crop", lambda x: x.crop(num=[2, 2] + [0] * (2 * D - 2))), ("pad", lambda x: x.pad(num=[2, 0] + [0] * (2 * D - 2))),
                    ("resize", lambda x: x.resize([4, 3, 2][:D])), ("downsample", lambda x: x.downsample(1, sigma=0)),
                    ("avg_pool", lambda x: x.avg_pool(2)), ("narrow", lambda x: x.narrow(x.ndim - 1, 1, 4)),
